@@ -195,6 +195,8 @@ type EOp struct {
 	Custom string
 	Text   string
 	Filter *fileadapter.Filter
+	// Listed (rms): pass the live listing (GetPolicy / GetGroupingPolicy) instead of a copy of Rules
+	Listed bool
 	// NoBuild (setrm): install the role manager only, without the BuildRoleLinks that normally follows. Only
 	// used while no grouping rule is listed, where both leave the same (empty) graph, so the model line is the same
 	NoBuild bool
@@ -342,6 +344,7 @@ type Sess struct {
 	A       *mem.Adapter
 	W       *mem.Watcher
 	Customs map[string]string
+	handed  []*handedRules
 }
 
 func mres(ok bool, err error) string {
@@ -411,8 +414,63 @@ func reqGo(ctx *casbin.EnforceContext, req []V) []interface{} {
 	return out
 }
 
-// Exec runs one op on the real enforcer; panics escaping the API are observed as "panic".
-func (s *Sess) Exec(o EOp) (obs string) {
+// Exec runs the operation on the real enforcer.  Every rule list handed to the library is a copy of the
+// operation's own (pristine) list; after every call all copies handed out so far in this session are compared with
+// their originals: the library must not edit a slice it was given — not during the call (the notification and
+// the caller would see the edit) and not later.
+func (s *Sess) Exec(o EOp) string {
+	obs := s.execInner(o)
+	for _, h := range s.handed {
+		if !h.reported && !sameRules(h.clone, h.orig) {
+			h.reported = true
+			if len(argMutations) < 5 {
+				argMutations = append(argMutations, fmt.Sprintf("handed in by %s: %v, found after %s: %v", h.op, h.orig, o.Line(), h.clone))
+			}
+		}
+	}
+	return obs
+}
+
+type handedRules struct {
+	op          string
+	orig, clone [][]string
+	reported    bool
+}
+
+// argMutations collects (process-wide) the cases in which the library edited a slice its caller passed in
+var argMutations []string
+
+func sameRules(a, b [][]string) bool {
+	if len(a) != len(b) {
+		return false
+	}
+	for i := range a {
+		if len(a[i]) != len(b[i]) {
+			return false
+		}
+		for k := range a[i] {
+			if a[i][k] != b[i][k] {
+				return false
+			}
+		}
+	}
+	return true
+}
+
+func (s *Sess) hand(o EOp, rs [][]string) [][]string {
+	cl := cloneRules(rs)
+	if len(s.handed) < 400 {
+		s.handed = append(s.handed, &handedRules{op: o.Line(), orig: cloneRules(rs), clone: cl})
+	}
+	return cl
+}
+
+func (s *Sess) hand1(o EOp, r []string) []string {
+	return s.hand(o, [][]string{r})[0]
+}
+
+// execInner runs one op on the real enforcer; panics escaping the API are observed as "panic".
+func (s *Sess) execInner(o EOp) (obs string) {
 	defer func() {
 		if r := recover(); r != nil {
 			obs = "panic"
@@ -463,40 +521,56 @@ func (s *Sess) Exec(o EOp) (obs string) {
 		return proto.Bool(ok)
 	case "add":
 		if p {
-			return mres(e.AddNamedPolicy(o.PType, append([]string(nil), o.Rule...)))
+			// AddNamedPolicy copies a rule given as one []string (its callers refill one buffer per rule): the
+			// buffer is overwritten right after the call, the listed rule must not follow
+			buf := append([]string(nil), o.Rule...)
+			res := mres(e.AddNamedPolicy(o.PType, buf))
+			for i := range buf {
+				buf[i] = "\x00overwritten-by-the-caller"
+			}
+			return res
 		}
-		return mres(e.AddNamedGroupingPolicy(o.PType, append([]string(nil), o.Rule...)))
+		return mres(e.AddNamedGroupingPolicy(o.PType, s.hand1(o, o.Rule)))
 	case "adds":
 		switch {
 		case p && !o.Ex:
-			return mres(e.AddNamedPolicies(o.PType, cloneRules(o.Rules)))
+			return mres(e.AddNamedPolicies(o.PType, s.hand(o, o.Rules)))
 		case p && o.Ex:
-			return mres(e.AddNamedPoliciesEx(o.PType, cloneRules(o.Rules)))
+			return mres(e.AddNamedPoliciesEx(o.PType, s.hand(o, o.Rules)))
 		case !p && !o.Ex:
-			return mres(e.AddNamedGroupingPolicies(o.PType, cloneRules(o.Rules)))
+			return mres(e.AddNamedGroupingPolicies(o.PType, s.hand(o, o.Rules)))
 		default:
-			return mres(e.AddNamedGroupingPoliciesEx(o.PType, cloneRules(o.Rules)))
+			return mres(e.AddNamedGroupingPoliciesEx(o.PType, s.hand(o, o.Rules)))
 		}
 	case "rm":
 		if p {
-			return mres(e.RemoveNamedPolicy(o.PType, append([]string(nil), o.Rule...)))
+			return mres(e.RemoveNamedPolicy(o.PType, s.hand1(o, o.Rule)))
 		}
-		return mres(e.RemoveNamedGroupingPolicy(o.PType, append([]string(nil), o.Rule...)))
+		return mres(e.RemoveNamedGroupingPolicy(o.PType, s.hand1(o, o.Rule)))
 	case "rms":
-		if p {
-			return mres(e.RemoveNamedPolicies(o.PType, cloneRules(o.Rules)))
+		if o.Listed {
+			// the listing handed straight back (o.Rules holds what was listed)
+			if p {
+				live, _ := e.GetNamedPolicy(o.PType)
+				return mres(e.RemoveNamedPolicies(o.PType, live))
+			}
+			live, _ := e.GetNamedGroupingPolicy(o.PType)
+			return mres(e.RemoveNamedGroupingPolicies(o.PType, live))
 		}
-		return mres(e.RemoveNamedGroupingPolicies(o.PType, cloneRules(o.Rules)))
+		if p {
+			return mres(e.RemoveNamedPolicies(o.PType, s.hand(o, o.Rules)))
+		}
+		return mres(e.RemoveNamedGroupingPolicies(o.PType, s.hand(o, o.Rules)))
 	case "upd":
 		if p {
-			return mres(e.UpdateNamedPolicy(o.PType, append([]string(nil), o.Rule...), append([]string(nil), o.New...)))
+			return mres(e.UpdateNamedPolicy(o.PType, s.hand1(o, o.Rule), s.hand1(o, o.New)))
 		}
-		return mres(e.UpdateNamedGroupingPolicy(o.PType, append([]string(nil), o.Rule...), append([]string(nil), o.New...)))
+		return mres(e.UpdateNamedGroupingPolicy(o.PType, s.hand1(o, o.Rule), s.hand1(o, o.New)))
 	case "upds":
 		if p {
-			return mres(e.UpdateNamedPolicies(o.PType, cloneRules(o.Rules), cloneRules(o.News)))
+			return mres(e.UpdateNamedPolicies(o.PType, s.hand(o, o.Rules), s.hand(o, o.News)))
 		}
-		return mres(e.UpdateNamedGroupingPolicies(o.PType, cloneRules(o.Rules), cloneRules(o.News)))
+		return mres(e.UpdateNamedGroupingPolicies(o.PType, s.hand(o, o.Rules), s.hand(o, o.News)))
 	case "rmf":
 		if p {
 			return mres(e.RemoveFilteredNamedPolicy(o.PType, o.FI, o.Vals...))
@@ -504,7 +578,7 @@ func (s *Sess) Exec(o EOp) (obs string) {
 		return mres(e.RemoveFilteredNamedGroupingPolicy(o.PType, o.FI, o.Vals...))
 	case "updf":
 		if p {
-			return mres(e.UpdateFilteredNamedPolicies(o.PType, cloneRules(o.News), o.FI, o.Vals...))
+			return mres(e.UpdateFilteredNamedPolicies(o.PType, s.hand(o, o.News), o.FI, o.Vals...))
 		}
 		panic("updf on g is not in the public API")
 	case "clear":
@@ -567,10 +641,10 @@ func (s *Sess) Exec(o EOp) (obs string) {
 		}
 		return fmt.Sprintf("%s F=%d", okErr(err), f)
 	case "dist-add":
-		aff, err := s.D.AddPoliciesSelf(persistFn(o.Persist), o.Sec, o.PType, cloneRules(o.Rules))
+		aff, err := s.D.AddPoliciesSelf(persistFn(o.Persist), o.Sec, o.PType, s.hand(o, o.Rules))
 		return fmt.Sprintf("A %s E %d", proto.EncRules(aff), errBit(err))
 	case "dist-rm":
-		aff, err := s.D.RemovePoliciesSelf(persistFn(o.Persist), o.Sec, o.PType, cloneRules(o.Rules))
+		aff, err := s.D.RemovePoliciesSelf(persistFn(o.Persist), o.Sec, o.PType, s.hand(o, o.Rules))
 		return fmt.Sprintf("A %s E %d", proto.EncRules(aff), errBit(err))
 	case "dist-rmf":
 		aff, err := s.D.RemoveFilteredPolicySelf(persistFn(o.Persist), o.Sec, o.PType, o.FI, o.Vals...)
@@ -579,10 +653,10 @@ func (s *Sess) Exec(o EOp) (obs string) {
 		err := s.D.ClearPolicySelf(persistFn(o.Persist))
 		return fmt.Sprintf("E %d", errBit(err))
 	case "dist-upd":
-		ok, err := s.D.UpdatePolicySelf(persistFn(o.Persist), o.Sec, o.PType, append([]string(nil), o.Rule...), append([]string(nil), o.New...))
+		ok, err := s.D.UpdatePolicySelf(persistFn(o.Persist), o.Sec, o.PType, s.hand1(o, o.Rule), s.hand1(o, o.New))
 		return fmt.Sprintf("%v E %d", ok, errBit(err))
 	case "dist-upds":
-		ok, err := s.D.UpdatePoliciesSelf(persistFn(o.Persist), o.Sec, o.PType, cloneRules(o.Rules), cloneRules(o.News))
+		ok, err := s.D.UpdatePoliciesSelf(persistFn(o.Persist), o.Sec, o.PType, s.hand(o, o.Rules), s.hand(o, o.News))
 		return fmt.Sprintf("%v E %d", ok, errBit(err))
 	case "savefa":
 		err := e.SavePolicy()
